@@ -13,6 +13,7 @@ mod plan;
 mod rng;
 mod seams;
 mod sm;
+mod smsim;
 mod store;
 mod world;
 
@@ -53,6 +54,11 @@ fn main() {
             let seed: u64 = kv.get("seed").and_then(|s| s.parse().ok()).unwrap_or(1);
             std::process::exit(logsim::run_cli(seed, &kv));
         }
+        "smsim" => {
+            let seed: u64 = kv.get("seed").and_then(|s| s.parse().ok()).unwrap_or(1);
+            std::process::exit(smsim::run_cli(seed, &kv));
+        }
+        "smsim-child" => std::process::exit(smsim::child_main(&kv)),
         _ => {
             eprintln!("usage: dsim cluster --seed N [--plan file] [--out file]");
             std::process::exit(2);
